@@ -173,6 +173,12 @@ pub fn gen_lib(src: &mut Src) -> (LefLibrary, Flags) {
         };
         lib.macros.push(m);
     }
+    // a LEF file may define one macro name twice: still one abstract cell per macro
+    if lib.macros.len() >= 2 && src.prob(1, 8) {
+        let n = lib.macros[0].name.clone();
+        let k = lib.macros.len() - 1;
+        lib.macros[k].name = n;
+    }
     if allow_u && src.prob(1, 4) {
         lib.version = Some(LefDecimal::new(54, 1));
         lib.names_case_sensitive = Some(LefOnOff::Off);
